@@ -2,6 +2,7 @@ package main
 
 import (
 	"errors"
+	"sync"
 
 	corestore "cosmossdk.io/core/store"
 )
@@ -15,6 +16,7 @@ type rawOp struct {
 }
 
 type hooks struct {
+	mu sync.Mutex // the importer writes its batches from a background goroutine
 	writes   [][]rawOp // physical writes in order
 	record   bool
 	calls    int          // number of storage calls seen (Get, Has, iterator create/step, batch Set/Delete/Write, direct Set/Delete)
@@ -24,18 +26,33 @@ type hooks struct {
 	kinds    map[string]int
 	seq      []string // when non-nil: the kind of every call, in order
 	trace    bool
+	failNth  map[string]int // kind -> ordinal (1-based) of the call of that kind that fails
+	nth      map[string]int
 	failKind string // kind of the last injected fault
 }
 
 var errInjected = errors.New("injected storage fault")
 
 func (h *hooks) call(kind string) error {
+	h.mu.Lock()
+	defer h.mu.Unlock()
 	h.calls++
 	if h.kinds != nil {
 		h.kinds[kind]++
 	}
 	if h.trace {
 		h.seq = append(h.seq, kind)
+	}
+	if h.failNth != nil {
+		if h.nth == nil {
+			h.nth = map[string]int{}
+		}
+		h.nth[kind]++
+		if n, ok := h.failNth[kind]; ok && n == h.nth[kind] {
+			h.failed++
+			h.failKind = kind
+			return errInjected
+		}
 	}
 	if h.failAt != nil && h.failAt[h.calls] {
 		h.failed++
